@@ -253,7 +253,7 @@ var worldKinds = []wk{
 	{"set", 1}, {"o2start", 4}, {"o2cb", 6}, {"totpvalidate", 7}, {"smsvalidate", 7}, {"smsresend", 2}, {"totpsetup", 1},
 	{"totpconfirm", 1}, {"smssetup", 1}, {"smsconfirm", 1}, {"totpremove", 1}, {"smsremove", 1}, {"evstart", 1}, {"evend", 2},
 	{"lock", 1}, {"unlock", 1}, {"advance", 5}, {"get", 2}, {"raw", 3},
-	{"snip:recover", 4}, {"snip:remember", 5}, {"snip:oauth", 3}, {"snip:2fa", 5}, {"snip:rec2fa", 14}, {"snip:otp", 3}, {"snip:register", 2},
+	{"snip:recover", 6}, {"snip:remember", 5}, {"snip:oauth", 3}, {"snip:2fa", 5}, {"snip:rec2fa", 14}, {"snip:otp", 3}, {"snip:register", 2},
 }
 
 var profC01 = profile{
